@@ -224,6 +224,12 @@ def multDimOk : List Stmt → Bool
   | .alloc x sh :: r => reidxSideOk x true (fun d => decide (sh.length - 1 ≤ d)) r
   | _ => true
 
+/-- `rearrange_dim`: `perm` is a permutation of the dimensions (what the wrapper checks with
+    `sorted(perm) == list(range(N))`), plus the re-indexing side conditions -/
+def rearrangeDimOk (perm : List Nat) : List Stmt → Bool
+  | .alloc x sh :: r => perm.isPerm (List.range sh.length) && reidxSideOk x false (fun _ => false) r
+  | _ => true
+
 def resizeDimOk (Γ : Env) (size off : Expr) : List Stmt → Bool
   | .alloc x _ :: r => wfC Γ size && wfC Γ off && reidxSideOk x false (fun _ => false) r
   | _ => true
@@ -294,6 +300,68 @@ def rewriteExprOk (Γ : Env) (s' : Stmt) : List Stmt → Bool
     after the block are well formed without what the block defined -/
 def extractBlockOk (Γ : Env) (sub : Proc) (args : List Expr) (n : Nat) (ss : List Stmt) : Bool :=
   wfP sub && wfCallArgs Γ sub.args args && (wfL Γ (ss.drop n)).isSome
+
+/-! ### reuse_buffer -/
+
+mutual
+def freesS (y : Sym) : Stmt → Bool
+  | .free z => z == y
+  | .ite _ t el => freesL y t || freesL y el
+  | .loop _ _ _ b _ => freesL y b
+  | _ => false
+def freesL (y : Sym) : List Stmt → Bool
+  | [] => false
+  | s :: r => freesS y s || freesL y r
+end
+
+/-- `reuse_buffer`: the kept buffer `x` is in scope at the replaced allocation with the same
+    rank; the rest of the block has no `stride(y, _)` (it is not renamed: it would keep the dead
+    name), no later extent mentioning `y`, no `free y` -/
+def reuseBufferOk (Γ : Env) (x : Sym) : List Stmt → Bool
+  | .alloc y shy :: r =>
+    (rankOf Γ x == some shy.length) &&
+      !anyAccL y (fun _ => false) (fun _ => false) (fun _ => true) r &&
+      !allocMentionsL y r && !freesL y r
+  | _ => true
+
+/-! ### divide_with_recompute, stage_mem -/
+
+def divideRecomputeOk (Γ : Env) (io ii : Sym) (ohi : Expr) : List Stmt → Bool
+  | .loop _ _ _ b _ :: _ =>
+    fresh Γ io && fresh Γ ii && io != ii && !(bindL b).contains io && !(bindL b).contains ii &&
+      wfC Γ ohi
+  | _ => true
+
+/-- the environment inside a loop nest over `iters` (innermost iterator first) -/
+def itersEnv (iters : List Sym) : Env := iters.reverse.map (fun i => (i, none))
+
+def nodupB : List Sym → Bool
+  | [] => true
+  | a :: r => !r.contains a && nodupB r
+
+/-- a copy nest `loopNest iters ns inner` is fine at `Γ'`: as many iterators as extents, extents
+    well formed, iterators new and distinct, innermost statement well formed under them -/
+def nestOk (Γ' : Env) (iters : List Sym) (ns : List Expr) (inner : List Stmt) : Bool :=
+  iters.length == ns.length && wfCs Γ' ns && iters.all (fun i => fresh Γ' i) && nodupB iters &&
+    (wfL (itersEnv iters ++ Γ') inner).isSome
+
+/-- `stage_mem`: the staging buffer's name is new, the window bounds are well formed at the site
+    (extents `hi - lo`), the copy nests are fine where they are put, the staged block `B'` (read
+    off the output) is well formed with the staging buffer in scope and the statements after it
+    are well formed in the environment it leaves -/
+def stageMemOk (Γ : Env) (x xs : Sym) (w : List WAcc) (n : Nat) (iters : List Sym)
+    (accum load store : Bool) (gl gs : Option Expr) (B' : List Stmt) (ss : List Stmt) : Bool :=
+  fresh Γ xs && wfCs Γ (stageShape w) &&
+    (!load || nestOk ((xs, some (stageShape w).length) :: Γ) iters (stageShape w)
+      (guarded gl (.assign xs (iterReads iters)
+        (if accum then .lit (.data 0 1) else .read x (stageRIdx w iters))))) &&
+    match wfL ((xs, some (stageShape w).length) :: Γ) B' with
+    | some Γb =>
+      (!store || nestOk Γb iters (stageShape w)
+        (guarded gs ((if accum then Stmt.reduce else Stmt.assign) x (stageRIdx w iters)
+          (.read xs (iterReads iters))))) &&
+        (wfL Γb (ss.drop n)).isSome
+    | none => false
 
 /-! ### the scope skeleton: every binder is fresh where it is bound -/
 
